@@ -9,9 +9,11 @@ from pyvc.interp import SymOpt
 from pyvc.sym import Sym
 
 META = {
-    "explanation": "ionic_strength proved for sequences of any length (two loop invariants over None-initialised accumulators, allclose inlined); A/B proved to have the stated functional form on both code paths with the hard-coded factors tied to CODATA by data obligations; log-gamma formulas, their limits and the activity products (loop invariants) proved",
-    "trusted_base": ["assumed contract 5.3 (sqrt/exp as real functions)", "CODATA constants typed into this file (F, NA, eps0, kB, R)"],
-    "not_decided": ["with-units paths of ionic_strength/A/B under the real `quantities` package (bounded stand-in C18/C09)"],
+    "explanation": "ionic_strength proved for sequences of any length (two loop invariants over None-initialised accumulators, allclose inlined) and, for 1-3 ions, with every molality in a generic unit of its own; the neutrality warning within a band that copies no threshold (silent when exactly neutral, issued from 1e-12 relative on: the quantifier's 12 decades); A/B proved to have the stated functional form (incl. the reference molality) on both code paths, every division and root defined on the range, the built-in factors tied by data obligations to CODATA (elementary-charge form), to textbook values and (1e-9) to the library's constants path; A/B and the log-gammas with quantities in generic units equal the plain calls; log-gamma formulas for any positive I0, their limits and the activity products (loop invariants; with C given and with C left at its default) proved",
+    "trusted_base": ["assumed contract 5.3 (sqrt/exp as real functions)", "assumed contract 5.1 (pyvc/qmodel.py) for the `quantities` package in the *.units harnesses, validated against the real package in C09",
+                     "CODATA constants typed into this file (e, NA, eps0, kB)", "textbook values for water at 25 C (A/ln10 = 0.509, B = 3.28e9 1/m)"],
+    "not_decided": ["with-units paths under the real `quantities` package beyond the sampled runs and the grid of A.B.hardcoded_factors (bounded stand-in C18/C09)",
+                    "definedness inside the activity products is assumed there (nlsat does not decide it through the nested roots); it is an obligation for A, B and the log-gammas they call"],
     "assumptions": [],
 }
 MOD = "chempy.electrolytes"
@@ -81,14 +83,30 @@ def _(v):
         net = SP.ssum(pairs, t_net)
         v.prove("post", v.eq(out.value, tot / 2))
         v.prove("canary", SP.neg(v.eq(out.value, tot / 2 + 1)))
-        warned = len(v.events("warning")) > 0
-        if warned:
-            # exact comparison (in the sampled mode v.eq would be a tolerance test and call a net charge of 1e-13 'neutral')
-            v.prove("warned_only_if_enabled_and_not_neutral", SP.conj([warn, SP.neg(net == 0)]))
-        else:
-            absnet = SP.ite(net >= 0, net, -net)
-            v.prove("silent_only_if_disabled_or_nearly_neutral", SP.disj([SP.neg(warn), absnet * (1 - 1e-8) <= tot * 1e-14 + (0 if v.symbolic else 1e-18)]))
-        v.prove("at_most_one_warning", len(v.events("warning")) <= 1)
+        _warning_obligations(v, warn, net, tot)
+
+
+def _warning_obligations(v, warn, net, tot):
+    """'a charge-imbalance warning is issued when the composition is not neutral and not when it is'; net = sum b z, tot = sum b z^2 (physical values)"""
+    nw = _neutrality_warnings(v)
+    if len(nw) > 0:
+        # 'not when it is [neutral]'.  Exact comparison (in the sampled mode v.eq would be a tolerance test and call a net charge of 1e-13 'neutral')
+        v.prove("warned_only_if_enabled_and_not_neutral", SP.conj([warn, SP.neg(net == 0)]))
+    else:
+        # 'issued when the composition is not neutral': the property names no threshold, so none is copied from the code.  What it does fix is the
+        # quantifier, molalities over 12 decades: an unbalanced ion 12 decades below the rest is still 'not neutral', i.e. a net charge of 1e-12 of
+        # sum b z^2 or more must be reported.  Between exact neutrality (obligation above) and that bound the implementation is free (the round-off
+        # of the two sums lives there: ~1e-16 relative per term); a tolerance of 1e-12 relative or looser is a violation
+        absnet = SP.ite(net >= 0, net, -net)
+        v.prove("silent_only_if_disabled_or_nearly_neutral", SP.disj([SP.neg(warn), absnet <= tot * 1e-12 + (0 if v.symbolic else 1e-18)]))
+    v.prove("at_most_one_warning", len(nw) <= 1)
+
+
+def _neutrality_warnings(v):
+    """the warnings that are about charge neutrality (the events carry the message text; the category is not recorded by the engine).  Warnings
+    about anything else (a DeprecationWarning of a parser underneath, ...) are neither the warning the property asks for nor forbidden by it.
+    '<symbolic message>' is what the engine records when the text itself is not concrete: only a message that embeds the net charge can be that"""
+    return [e for e in v.events("warning") if "neutral" in str(e[1]).lower() or str(e[1]) == "<symbolic message>"]
 
 
 def SP_zip(a, b):
@@ -117,10 +135,12 @@ def _is_dict(n):
         bs = [v.real("b%d" % i, lo=0, hi=10) for i in range(n)]
         zs = [v.int("z%d" % i, lo=-4, hi=4) for i in range(n)]
         substances = {k: make_obj(Substance, name=k, composition={0: z, 1: 1}, data={}) for k, z in zip(keys, zs)}
-        out = v.run(electrolytes.ionic_strength, dict(zip(keys, bs)), substances=substances, warn=False)
+        warn = v.bool("warn")
+        out = v.run(electrolytes.ionic_strength, dict(zip(keys, bs)), substances=substances, warn=warn)
         v.prove("returns", out.returned, detail=repr(out.exc))
         if out.returned:
             v.prove("post", v.eq(out.value, sum(b * z * z for b, z in zip(bs, zs)) / 2))
+            _warning_obligations(v, warn, sum(b * z for b, z in zip(bs, zs)), sum(b * z * z for b, z in zip(bs, zs)))
 
 
 for _n in (1, 2, 3):
@@ -128,7 +148,10 @@ for _n in (1, 2, 3):
 
 
 # ---- Debye-Hueckel A and B -------------------------------------------------------
-CODATA = dict(F=96485.33212, NA=6.02214076e23, eps0=8.8541878128e-12, kB=1.380649e-23, R=8.314462618, pi=math.pi)
+# CODATA 2018 values typed in (e, NA, kB exact by the 2019 SI; eps0 measured); F = e NA and R = kB NA follow
+CODATA = dict(e=1.602176634e-19, NA=6.02214076e23, eps0=8.8541878128e-12, kB=1.380649e-23, pi=math.pi)
+CODATA["F"] = CODATA["e"] * CODATA["NA"]
+CODATA["R"] = CODATA["kB"] * CODATA["NA"]
 
 
 class _Consts:
@@ -136,76 +159,122 @@ class _Consts:
         self.__dict__.update(kw)
 
 
-@harness("C18", "A.numeric_path", functions=[MOD + ":A", MOD + ":_get_b0"], div_mode="assume", samples=20)
+def _AB_inputs(v, tag=""):
+    """one point of the property's range (T 250..650 K, relative permittivity 5..100, density 500..1500 kg/m3) and a reference molality"""
+    return (v.real("eps_r" + tag, lo=5, hi=100), v.real("T" + tag, lo=250, hi=650), v.real("rho" + tag, lo=500, hi=1500), v.real("b0" + tag, lo=0.1, hi=10))
+
+
+@harness("C18", "A.numeric_path", functions=[MOD + ":A", MOD + ":_get_b0"], div_mode="oblige", samples=20)
 def _(v):
+    """built-in numeric path of A: the functional form of the definition, A^2 proportional to rho b0 / (T eps_r)^3, stated without the constant
+    (two independent points of the range; the value of the constant is tied once, in A.B.hardcoded_factors, to the physical constants and to
+    the constants path); *.defined.*: every division and root of the code is defined on the whole range"""
     from chempy import electrolytes
-    eps, T, rho = v.real("eps_r", lo=5, hi=100), v.real("T", lo=250, hi=650), v.real("rho", lo=500, hi=1500)
-    a = v.call(electrolytes.A, eps, T, rho)
-    c1 = fractions.Fraction("132871.85866393594")
-    v.prove_identity("square_form", a * a * (T * T * T * eps * eps * eps), c1 * c1 * rho, rel=1e-12)
+    eps, T, rho, b0 = _AB_inputs(v)
+    eps2, T2, rho2, b02 = _AB_inputs(v, "'")
+    a = v.call(electrolytes.A, eps, T, rho, b0)
+    a2 = v.call(electrolytes.A, eps2, T2, rho2, b02)
+    v.prove_identity("square_form", a * a * (T * T * T * eps * eps * eps) * (rho2 * b02), a2 * a2 * (T2 * T2 * T2 * eps2 * eps2 * eps2) * (rho * b0), rel=1e-12)
     v.prove("positive", a > 0)
+    v.prove_identity("default_b0_is_one", v.call(electrolytes.A, eps, T, rho), v.call(electrolytes.A, eps, T, rho, 1), rel=1e-15)
 
 
-@harness("C18", "A.constants_path", functions=[MOD + ":A"], div_mode="assume", samples=20)
+@harness("C18", "A.constants_path", functions=[MOD + ":A"], div_mode="oblige", samples=20)
 def _(v):
+    """A computed from physical constants: A = F^3/(4 pi NA) sqrt(rho b0 / (2 (eps0 eps_r kB NA T)^3)) for ANY positive values of the constants
+    (pi is the number pi: where the code takes it from is not part of the property)"""
     from chempy import electrolytes
-    eps, T, rho = v.real("eps_r", lo=5, hi=100), v.real("T", lo=250, hi=650), v.real("rho", lo=500, hi=1500)
+    eps, T, rho, b0 = _AB_inputs(v)
     if v.symbolic:
         cs = _Consts(Faraday_constant=v.real("F", pos=True), Avogadro_constant=v.real("NA", pos=True), vacuum_permittivity=v.real("eps0", pos=True),
-                     Boltzmann_constant=v.real("kB", pos=True), pi=v.real("pi", lo=3, hi=4))
+                     Boltzmann_constant=v.real("kB", pos=True), pi=math.pi)
     else:
         cs = _Consts(Faraday_constant=CODATA["F"], Avogadro_constant=CODATA["NA"], vacuum_permittivity=CODATA["eps0"], Boltzmann_constant=CODATA["kB"], pi=CODATA["pi"])
-    F, NA, e0, kB, pi = cs.Faraday_constant, cs.Avogadro_constant, cs.vacuum_permittivity, cs.Boltzmann_constant, cs.pi
-    a = v.call(electrolytes.A, eps, T, rho, 1, cs)
+    F, NA, e0, kB = cs.Faraday_constant, cs.Avogadro_constant, cs.vacuum_permittivity, cs.Boltzmann_constant
+    pi = fractions.Fraction(repr(math.pi)) if v.symbolic else math.pi     # assumption A2: the engine reads the float the code works with as its shortest decimal
+    a = v.call(electrolytes.A, eps, T, rho, b0, cs)
     # definition: A = F^3/(4 pi NA) * sqrt(rho b0 / (2 (eps0 eps_r kB NA T)^3))  =>  A^2 * 32 pi^2 NA^5 eps0^3 kB^3 T^3 eps_r^3 = F^6 rho b0
     lhs = a * a * (32 * pi * pi * NA ** 5 * e0 ** 3 * kB ** 3 * T ** 3 * eps ** 3)
-    v.prove_identity("square_form", lhs, F ** 6 * rho, rel=1e-9)
+    v.prove_identity("square_form", lhs, F ** 6 * rho * b0, rel=1e-9)
     v.prove("positive", a > 0)
+
+
+def _AB_expected(eps, T, rho, b0=1.0):
+    """Debye-Hueckel constants in the elementary-charge form of the textbooks (ln-based A, SI): A = sqrt(2 pi NA rho b0) (e^2/(4 pi eps0 eps_r kB T))^(3/2),
+    B = sqrt(2 e^2 NA rho b0 / (eps0 eps_r kB T)) (kappa = B sqrt(I/b0)); deliberately NOT the F/NA/R arrangement of the code"""
+    c = CODATA
+    lB4pi = c["e"] ** 2 / (4 * math.pi * c["eps0"] * eps * c["kB"] * T)
+    return math.sqrt(2 * math.pi * c["NA"] * rho * b0) * lB4pi ** 1.5, math.sqrt(2 * c["e"] ** 2 * c["NA"] * rho * b0 / (c["eps0"] * eps * c["kB"] * T))
 
 
 @harness("C18", "A.B.hardcoded_factors", functions=[MOD + ":A", MOD + ":B"], kind="data")
 def _(v):
+    """'A and B computed from physical constants with units agree with the built-in numeric path': the value of the built-in constants.
+    The functional form is proved in A/B.numeric_path, so one point ties the constant; it is tied loosely (1e-5: CODATA revisions differ by ~2e-6) to
+    the typed-in physical constants and to the textbook values for water at 25 C, and tightly (1e-9: 'agree') to the library's own constants path"""
     from chempy import electrolytes
-    c = CODATA
-    a_factor = math.sqrt(c["F"] ** 6 / (32 * c["pi"] ** 2 * c["NA"] ** 5 * c["eps0"] ** 3 * c["kB"] ** 3))
-    b_factor = c["F"] * math.sqrt(2 / (c["eps0"] * c["R"]))
-    v.prove("A_factor_is_CODATA", abs(132871.85866393594 / a_factor - 1) < 2e-6, "A factor %r vs %r" % (132871.85866393594, a_factor))
-    v.prove("B_factor_is_CODATA", abs(15903203868.740343 / b_factor - 1) < 2e-6, "B factor vs %r" % b_factor)
-    # the two code paths agree on a grid (numeric constant vs constants object of the real package)
-    from chempy.units import default_constants as dc, default_units as u, to_unitless
-    worst = 0.0
-    for T in (250.0, 298.15, 400.0, 650.0):
-        for eps in (5.0, 78.4, 100.0):
-            for rho in (500.0, 997.0, 1500.0):
-                a1 = electrolytes.A(eps, T, rho)
-                a2 = electrolytes.A(eps, T * u.K, rho * u.kg / u.m ** 3, 1 * u.mol / u.kg, dc, u)
-                worst = max(worst, abs(float(to_unitless(a2, 1)) / a1 - 1))
-                b1 = electrolytes.B(eps, T, rho)
-                b2 = electrolytes.B(eps, T * u.K, rho * u.kg / u.m ** 3, 1 * u.mol / u.kg, dc, u)
-                worst = max(worst, abs(float(to_unitless(b2, 1 / u.m)) / b1 - 1))
-    v.prove("paths_agree_on_grid", worst < 5e-6, "worst relative deviation %g" % worst)
+    try:
+        A_e, B_e = _AB_expected(78.4, 298.15, 997.0)
+        A_c, B_c = float(electrolytes.A(78.4, 298.15, 997.0)), float(electrolytes.B(78.4, 298.15, 997.0))
+        v.prove("A_factor_is_CODATA", abs(A_c / A_e - 1) < 1e-5, "A(78.4, 298.15, 997) = %r vs %r from e, NA, kB, eps0" % (A_c, A_e))
+        v.prove("B_factor_is_CODATA", abs(B_c / B_e - 1) < 1e-5, "B(78.4, 298.15, 997) = %r vs %r from e, NA, kB, eps0" % (B_c, B_e))
+        # Atkins / Robinson & Stokes, water at 25 C: A/ln(10) = 0.509 (kg/mol)^1/2, B = 0.328 1/Angstrom (three figures given)
+        v.prove("A_textbook_water_25C", abs(A_c / math.log(10) / 0.509 - 1) < 5e-3, "A/ln10 = %r" % (A_c / math.log(10),))
+        v.prove("B_textbook_water_25C", abs(B_c / 3.28e9 - 1) < 5e-3, "B = %r 1/m" % (B_c,))
+    except Exception as ex:
+        v.prove("A_factor_is_CODATA", False, detail="raised %r" % (ex,))
+    # the code paths agree on a grid: numeric constant vs constants object of the real package (with units), and the numeric constant with units
+    # (also for a density in g/cm3 and a reference molality of 4 mol/kg = factor 2: 'in any units')
+    try:
+        from chempy.units import default_constants as dc, default_units as u, to_unitless
+        worst, worst_u = 0.0, 0.0
+        for T in (250.0, 298.15, 400.0, 650.0):
+            for eps in (5.0, 78.4, 100.0):
+                for rho in (500.0, 997.0, 1500.0):
+                    a1 = electrolytes.A(eps, T, rho)
+                    b1 = electrolytes.B(eps, T, rho)
+                    a2 = electrolytes.A(eps, T * u.K, rho * u.kg / u.m ** 3, 1 * u.mol / u.kg, dc, u)
+                    b2 = electrolytes.B(eps, T * u.K, rho * u.kg / u.m ** 3, 1 * u.mol / u.kg, dc, u)
+                    worst = max(worst, abs(float(to_unitless(a2, 1)) / a1 - 1), abs(float(to_unitless(b2, 1 / u.m)) / b1 - 1))
+                    for rq, bq, f in ((rho * u.kg / u.m ** 3, None, 1.0), ((rho / 1000) * u.g / u.cm ** 3, None, 1.0), (rho * u.kg / u.m ** 3, 4 * u.mol / u.kg, 2.0),
+                                      (rho * u.kg / u.m ** 3, 250 * u.mmol / u.kg, 0.5)):
+                        kw = {} if bq is None else {"b0": bq}
+                        a3 = electrolytes.A(eps, T * u.K, rq, units=u, **kw)
+                        b3 = electrolytes.B(eps, T * u.K, rq, units=u, **kw)
+                        a4 = electrolytes.A(eps, T * u.K, rq, constants=dc, units=u, **kw)
+                        b4 = electrolytes.B(eps, T * u.K, rq, constants=dc, units=u, **kw)
+                        worst_u = max(worst_u, abs(float(to_unitless(a3, 1)) / (f * a1) - 1), abs(float(to_unitless(b3, 1 / u.m)) / (f * b1) - 1),
+                                      abs(float(to_unitless(a4, 1)) / (f * a1) - 1), abs(float(to_unitless(b4, 1 / u.m)) / (f * b1) - 1))
+        v.prove("paths_agree_on_grid", worst < 1e-9, "worst relative deviation %g" % worst)
+        v.prove("paths_with_units_agree_on_grid", worst_u < 1e-9, "worst relative deviation %g" % worst_u)
+    except Exception as ex:
+        v.prove("paths_agree_on_grid", False, detail="raised %r" % (ex,))
 
 
-@harness("C18", "B.numeric_path", functions=[MOD + ":B"], div_mode="assume", samples=20)
+@harness("C18", "B.numeric_path", functions=[MOD + ":B"], div_mode="oblige", samples=20)
 def _(v):
+    """built-in numeric path of B: B^2 proportional to rho b0 / (T eps_r), stated without the constant (value: A.B.hardcoded_factors)"""
     from chempy import electrolytes
-    eps, T, rho = v.real("eps_r", lo=5, hi=100), v.real("T", lo=250, hi=650), v.real("rho", lo=500, hi=1500)
-    b = v.call(electrolytes.B, eps, T, rho)
-    c2 = fractions.Fraction("15903203868.740343")
-    v.prove_identity("square_form", b * b * (T * eps), c2 * c2 * rho, rel=1e-12)
+    eps, T, rho, b0 = _AB_inputs(v)
+    eps2, T2, rho2, b02 = _AB_inputs(v, "'")
+    b = v.call(electrolytes.B, eps, T, rho, b0)
+    b2 = v.call(electrolytes.B, eps2, T2, rho2, b02)
+    v.prove_identity("square_form", b * b * (T * eps) * (rho2 * b02), b2 * b2 * (T2 * eps2) * (rho * b0), rel=1e-12)
     v.prove("positive", b > 0)
+    v.prove_identity("default_b0_is_one", v.call(electrolytes.B, eps, T, rho), v.call(electrolytes.B, eps, T, rho, 1), rel=1e-15)
 
 
-@harness("C18", "B.constants_path", functions=[MOD + ":B"], div_mode="assume", samples=20)
+@harness("C18", "B.constants_path", functions=[MOD + ":B"], div_mode="oblige", samples=20)
 def _(v):
+    """B computed from physical constants: B = F sqrt(2 rho b0 / (eps_r eps0 R T)) for any positive values of the constants"""
     from chempy import electrolytes
-    eps, T, rho = v.real("eps_r", lo=5, hi=100), v.real("T", lo=250, hi=650), v.real("rho", lo=500, hi=1500)
+    eps, T, rho, b0 = _AB_inputs(v)
     if v.symbolic:
         cs = _Consts(Faraday_constant=v.real("F", pos=True), vacuum_permittivity=v.real("eps0", pos=True), molar_gas_constant=v.real("R", pos=True))
     else:
         cs = _Consts(Faraday_constant=CODATA["F"], vacuum_permittivity=CODATA["eps0"], molar_gas_constant=CODATA["R"])
-    b = v.call(electrolytes.B, eps, T, rho, 1, cs)
-    v.prove_identity("square_form", b * b * (eps * cs.vacuum_permittivity * cs.molar_gas_constant * T), cs.Faraday_constant ** 2 * 2 * rho, rel=1e-9)
+    b = v.call(electrolytes.B, eps, T, rho, b0, cs)
+    v.prove_identity("square_form", b * b * (eps * cs.vacuum_permittivity * cs.molar_gas_constant * T), cs.Faraday_constant ** 2 * 2 * rho * b0, rel=1e-9)
     v.prove("positive", b > 0)
 
 
@@ -224,19 +293,19 @@ def _sqrt(v, x):
     return math.sqrt(x)
 
 
-@harness("C18", "limiting_log_gamma", functions=[MOD + ":limiting_log_gamma"], div_mode="assume", samples=30)
+@harness("C18", "limiting_log_gamma", functions=[MOD + ":limiting_log_gamma"], div_mode="oblige", samples=30)
 def _(v):
     from chempy import electrolytes as E
     IS, z, A = _lg_inputs(v)
     r = v.call(E.limiting_log_gamma, IS, z, A)
     v.prove_identity("formula", r, -A * z * z * _sqrt(v, IS))
     v.prove_identity("zero_at_I0", v.call(E.limiting_log_gamma, 0, z, A), 0 * A)
-    I0 = v.real("I0", lo=0.5, hi=2)
+    I0 = v.real("I0", pos=True, hi=2)       # any positive reference (IS in mmol/kg means I0 = 1e-3 in SI); hi: sampling only
     r2 = v.call(E.limiting_log_gamma, IS, z, A, I0)
     v.prove_identity("I0_scaling", r2 * r2 * I0, A * A * z * z * z * z * IS)
 
 
-@harness("C18", "extended_log_gamma", functions=[MOD + ":extended_log_gamma"], div_mode="assume", samples=30)
+@harness("C18", "extended_log_gamma", functions=[MOD + ":extended_log_gamma"], div_mode="oblige", samples=30)
 def _(v):
     from chempy import electrolytes as E
     IS, z, A = _lg_inputs(v)
@@ -248,13 +317,13 @@ def _(v):
     v.prove_identity("zero_at_I0", v.call(E.extended_log_gamma, 0, z, a, A, B, C), 0 * A)
     v.prove_identity("default_C_is_zero", v.call(E.extended_log_gamma, IS, z, a, A, B), -A * z * z * s / (1 + B * a * s))
     # reference ionic strength I0 (the unit of IS): the formula is in IS/I0 throughout, with the sign of the limiting law
-    I0 = v.real("I0", lo=0.5, hi=2)
+    I0 = v.real("I0", pos=True, hi=2)       # any positive reference (IS in mmol/kg means I0 = 1e-3 in SI); hi: sampling only
     s0 = _sqrt(v, IS / I0)
     v.prove_identity("with_reference_ionic_strength", v.call(E.extended_log_gamma, IS, z, a, A, B, C, I0), -A * z * z * s0 / (1 + B * a * s0) + C * (IS / I0))
     v.prove_identity("limiting_with_reference_ionic_strength", v.call(E.limiting_log_gamma, IS, z, A, I0), -A * z * z * s0)
 
 
-@harness("C18", "davies_log_gamma", functions=[MOD + ":davies_log_gamma"], div_mode="assume", samples=30)
+@harness("C18", "davies_log_gamma", functions=[MOD + ":davies_log_gamma"], div_mode="oblige", samples=30)
 def _(v):
     from chempy import electrolytes as E
     IS, z, A = _lg_inputs(v)
@@ -264,7 +333,7 @@ def _(v):
     v.prove_identity("formula", r, -A * z * z * (s / (1 + s) + C * IS))
     v.prove_identity("zero_at_I0", v.call(E.davies_log_gamma, 0, z, A, C), 0 * A)
     v.prove_identity("default_C", v.call(E.davies_log_gamma, IS, z, A), -A * z * z * (s / (1 + s) - 0.3 * IS))
-    I0 = v.real("I0", lo=0.5, hi=2)
+    I0 = v.real("I0", pos=True, hi=2)       # any positive reference (IS in mmol/kg means I0 = 1e-3 in SI); hi: sampling only
     s0 = _sqrt(v, IS / I0)
     v.prove_identity("with_reference_ionic_strength", v.call(E.davies_log_gamma, IS, z, A, C, I0), -A * z * z * (s0 / (1 + s0) + C * (IS / I0)))
 
@@ -274,16 +343,23 @@ def _exp(v, x):
     return sym_exp(x) if v.symbolic else math.exp(x)
 
 
-def _products(kind):
-    @harness("C18", kind + "_activity_product", functions=[MOD + ":%s_activity_product" % kind, MOD + ":%s_log_gamma" % kind], div_mode="assume", samples=30)
+def _products(kind, default_C=False):
+    """'activity products are the stoichiometry-weighted exponentials of them': exp(sum_j nu_j * log_gamma_j) with A and B of the numeric path.
+    default_C=False: the linear coefficient C is an input handed both to the product and to the expected log-gammas;
+    default_C=True (harness <kind>_activity_product.default_C): C is handed to neither, i.e. the product called without C must use the value
+    that <kind>_log_gamma itself has when called without C (those are pinned by davies_log_gamma.default_C / extended_log_gamma.default_C_is_zero)"""
+    @harness("C18", kind + "_activity_product" + (".default_C" if default_C else ""), functions=[MOD + ":%s_activity_product" % kind, MOD + ":%s_log_gamma" % kind], div_mode="assume", samples=30)
     def _(v):
         from chempy import electrolytes as E
         fn = getattr(E, kind + "_activity_product")
         lg = getattr(E, kind + "_log_gamma")
         IS = v.real("IS", lo=0, hi=3)
-        T, eps, rho = v.real("T", lo=250, hi=650), v.real("eps_r", lo=40, hi=100), v.real("rho", lo=500, hi=1500)   # (eps_r >= 40 keeps exp() of the sampled products within double range)
+        # the proof is for the property's whole range of the permittivity (by A10 it is for eps_r >= lo); only the native samples are drawn from
+        # eps_r >= 40, where exp() of the sum stays inside the double range for almost all of them (the rest is rejected below)
+        T, eps, rho = v.real("T", lo=250, hi=650), v.real("eps_r", lo=5 if v.symbolic else 40, hi=100), v.real("rho", lo=500, hi=1500)
         stoich = v.seq("stoich", "int", lo=-4, hi=4, maxlen=4, minlen=1)      # products positive, reactants negative
-        Cc = v.real("C", lo=-1, hi=1)
+        Cc = None if default_C else v.real("C", lo=-1, hi=1)
+        copt = () if default_C else (Cc,)
         zs = v.seq("z", "int", lo=-4, hi=4, maxlen=4, minlen=1)
         aa = v.seq("a", "real", lo=0, hi=9, maxlen=4, minlen=1)
         n = len(stoich) if not v.symbolic else stoich.sym_len()
@@ -299,27 +375,30 @@ def _products(kind):
             if kind == "limiting":
                 return SP.select(stoich, j) * v.call(lg, IS, SP.select(zs, j), Aval)
             if kind == "extended":
-                return SP.select(stoich, j) * v.call(lg, IS, SP.select(zs, j), SP.select(aa, j), Aval, Bval, Cc)
-            return SP.select(stoich, j) * v.call(lg, IS, SP.select(zs, j), Aval, Cc)
+                return SP.select(stoich, j) * v.call(lg, IS, SP.select(zs, j), SP.select(aa, j), Aval, Bval, *copt)
+            return SP.select(stoich, j) * v.call(lg, IS, SP.select(zs, j), Aval, *copt)
         idx = list(range(n)) if not v.symbolic else None
         if v.symbolic:
             from pyvc.containers import SymSeq
             terms = SymSeq(n, term_at, "terms")
         else:
             terms = [term_at(j) for j in idx]
+            # a sum outside the double range of exp (possible with negative stoichiometry at the corner of small T and eps_r) says nothing about the
+            # property: chempy gives inf there and math.exp below would raise; such a sample is rejected, not failed
+            v.assume(abs(SP.ssum(terms)) < 700)
         v.invariant(fn, 0, lambda env, i, seq: env["@acc"] == SP.ssum_prefix(terms, i))
         if kind == "limiting":
             r = v.call(fn, IS, stoich, zs, T, eps, rho)
-        elif kind == "extended":
-            r = v.call(fn, IS, stoich, zs, aa, T, eps, rho, Cc)
         else:
-            r = v.call(fn, IS, stoich, zs, aa, T, eps, rho, Cc)
+            r = v.call(fn, IS, stoich, zs, aa, T, eps, rho, *copt)
         v.prove("post", v.eq(r, _exp(v, SP.ssum(terms))))
     return _
 
 
 for _k in ("limiting", "extended", "davies"):
     _products(_k)
+for _k in ("extended", "davies"):
+    _products(_k, default_C=True)
 
 
 @harness("C18", "ActivityProduct.call", functions=[MOD + ":LimitingDebyeHuckelActivityProduct.__call__", MOD + ":ExtendedDebyeHuckelActivityProduct.__call__"], kind="data")
@@ -347,3 +426,198 @@ def _(v):
     v.prove("returns", out.returned, detail=repr(out.exc))
     if out.returned:
         v.prove("each_ion_with_its_own_charge", v.eq(out.value, (b1 * zs["Fe+3"] * zs["Fe+3"] + b2 * zs["Cl-"] * zs["Cl-"]) / 2))
+
+
+@harness("C18", "ionic_strength.mapping_forms", functions=[MOD + ":ionic_strength"], kind="data")
+def _(v):
+    """'with charges read from the formulas when a mapping is given' and 'a charge-imbalance warning is issued when the composition is not neutral and not
+    when it is', for the argument forms no other harness reaches: charges parsed from the keys themselves, `substances` given as a whitespace-separated
+    string (in another order and with a species that is absent from the molalities), a custom substance_factory, and `warn` left at its default.
+    Expected values by hand, I = 1/2 sum b z^2:  Mg+2 6, PO4-3 4: (6*4 + 4*9)/2 = 30, net 12 - 12;  Na+ 1, SO4-2 0.5: (1 + 0.5*4)/2 = 1.5, net 1 - 1;
+    FeCl3 0.125: (0.125*9 + 0.375)/2 = 0.75;  'cat' (+2) 0.25, 'an' (-1) 0.5: (0.25*4 + 0.5)/2 = 0.75, net 0.5 - 0.5;  Na+ 1, Cl- 2: (1 + 2)/2 = 1.5, net -1"""
+    import warnings
+    from chempy.electrolytes import ionic_strength
+    from chempy.chemistry import Substance
+
+    def run(f):
+        """(value or None, exception or None, number of warnings about neutrality)"""
+        with warnings.catch_warnings(record=True) as w:
+            warnings.simplefilter("always")
+            try:
+                val, exc = f(), None
+            except Exception as ex:
+                val, exc = None, ex
+        return val, exc, len([x for x in w if "neutral" in str(x.message).lower()])
+
+    def check(name, f, want, want_warning):
+        val, exc, nwarn = run(f)
+        ok = exc is None
+        try:
+            ok = ok and abs(float(val) - want) <= 1e-12 * want and ((nwarn >= 1) if want_warning else (nwarn == 0))
+        except Exception as ex:
+            ok, exc = False, exc or ex
+        v.prove(name, ok, detail="value %r (expected %r), %d neutrality warning(s) (expected %s), exception %r" % (val, want, nwarn, ">= 1" if want_warning else "none", exc))
+
+    # charges from the formulas of the keys (substances=None)
+    check("formula_keys.Mg3PO42", lambda: ionic_strength({"Mg+2": 6, "PO4-3": 4}), 30.0, False)
+    check("formula_keys.FeCl3_in_water", lambda: ionic_strength({"Fe+3": 0.125, "Cl-": 0.375, "H2O": 55.5}), 0.75, False)
+    # substances as a string: looked up by key, whatever its order, absent species allowed
+    check("substances_string", lambda: ionic_strength({"Na+": 1, "SO4-2": .5}, substances="Na+ SO4-2 H2O"), 1.5, False)
+    check("substances_string.other_order", lambda: ionic_strength({"SO4-2": .5, "Na+": 1}, substances="H2O Na+ SO4-2"), 1.5, False)
+    # a custom factory: the keys are no formulas, so the charges can only have come from the factory
+    charge = {"cat": 2, "an": -1, "solv": 0}
+    calls = []
+
+    def factory(k):
+        calls.append(k)
+        return Substance(k, composition={0: charge[k]} if charge[k] else {})
+    check("substance_factory.with_substances_string", lambda: ionic_strength({"cat": 0.25, "an": 0.5}, substances="solv an cat", substance_factory=factory), 0.75, False)
+    v.prove("substance_factory.asked_for_each_ion", {"cat", "an"} <= set(calls), detail="factory called with %r" % (calls,))
+    del calls[:]
+    check("substance_factory.keys_only", lambda: ionic_strength({"cat": 0.25, "an": 0.5}, substance_factory=factory), 0.75, False)
+    check("substance_factory.not_neutral", lambda: ionic_strength({"cat": 0.25, "an": 0.25}, substance_factory=factory, warn=True), 0.625, True)   # (0.25*4 + 0.25)/2, net +0.25
+    # `warn` left at its default: the warning is on
+    check("default_warn.list_not_neutral", lambda: ionic_strength([1.0, 1.0], [1, 1]), 1.0, True)
+    check("default_warn.list_neutral", lambda: ionic_strength([1.0, 1.0], [1, -1]), 1.0, False)
+    check("default_warn.dict_not_neutral", lambda: ionic_strength({"Na+": 1.0, "Cl-": 2.0}), 1.5, True)
+    check("default_warn.dict_neutral", lambda: ionic_strength({"Na+": 1.0, "Cl-": 1.0}), 1.0, False)
+    check("warn_off.dict_not_neutral", lambda: ionic_strength({"Na+": 1.0, "Cl-": 2.0}, warn=False), 1.5, False)
+
+
+# ---- 'in any units': generic units of symbolic scale (assumed contract 5.1, pyvc/qmodel.py, as in C19/C09/C10) ----------------
+MOLALITY = (0, -1, 0, 0, 0, 0, 1)          # mol/kg over (length, mass, time, current, temperature, luminous intensity, amount)
+DENSITY = (-3, 1, 0, 0, 0, 0, 0)
+
+
+def _units_env(v):
+    """(units namespace, table) of the unit abstraction in the proof; the real default_units in the sampled runs"""
+    if v.symbolic:
+        from pyvc.qmodel import Units, std_table
+        t = std_table()
+        return Units(t), t
+    from chempy.units import default_units
+    return default_units, None
+
+
+def _si(v, q, unit_expr=None):
+    if v.symbolic:
+        from pyvc.qmodel import si_value
+        return si_value(q)
+    from chempy.units import to_unitless
+    return float(to_unitless(q, unit_expr))
+
+
+def _dimv(q):
+    from pyvc.qmodel import dim_of
+    return dim_of(q)
+
+
+def _is_units(n):
+    @harness("C18", "ionic_strength.units%d" % n, functions=[MOD + ":ionic_strength", "chempy.units:allclose"], kind="shape-bounded", samples=20)
+    def _(v):
+        """'in any units': every molality in a unit of its own (any unit of the dimension amount/mass): the result is a molality whose physical
+        value is 1/2 sum b_i z_i^2 of the physical values, and the warning obeys the same band as for plain numbers (ionic_strength.seq)"""
+        from chempy import electrolytes
+        bs = [v.real("b%d" % i, lo=0, hi=10) for i in range(n)]        # physical values in mol/kg
+        zs = [v.int("z%d" % i, lo=-4, hi=4) for i in range(n)]
+        warn = v.bool("warn")
+        u, table = _units_env(v)
+        if v.symbolic:
+            mus = [table.generic("mu%d" % i, MOLALITY) for i in range(n)]
+            qs = [(b / table.scale["mu%d" % i]) * mu for i, (b, mu) in enumerate(zip(bs, mus))]
+        else:
+            scales = [(u.mol / u.kg, 1.0), (u.mmol / u.kg, 1e-3), (u.mol / u.gram, 1e3)]
+            qs = [(b / scales[i % 3][1]) * scales[i % 3][0] for i, b in enumerate(bs)]
+        out = v.run(electrolytes.ionic_strength, qs, zs, warn=warn)
+        v.prove("returns", out.returned, detail=repr(out.exc))
+        if out.returned:
+            tot = sum(b * z * z for b, z in zip(bs, zs))
+            net = sum(b * z for b, z in zip(bs, zs))
+            if v.symbolic:
+                v.prove("is_a_molality", _dimv(out.value) == MOLALITY)
+            v.prove("post", v.eq(_si(v, out.value, u.mol / u.kg), tot / 2))
+            if n <= 2:      # (three independent symbolic scales make the band a nonlinear goal that z3 decides only some of the time: two units already mix)
+                _warning_obligations(v, warn, net, tot)
+
+
+for _n in (1, 2, 3):
+    _is_units(_n)
+
+
+def _AB_units(which):
+    @harness("C18", which + ".units", functions=[MOD + ":" + which, MOD + ":_get_b0"], div_mode="assume", samples=15)
+    def _(v):
+        """'A and B ... with units agree with the built-in numeric path', 'with and without units/constants objects': density in any density unit and
+        the reference molality in any molality unit (or left at its default), temperature in kelvin; with the built-in factor (constants=None, units given)
+        and with a constants object whose constants carry units.  Result: a pure number for A, an inverse length for B, of the same physical value
+        as the plain call with SI magnitudes"""
+        from chempy import electrolytes
+        fn = getattr(electrolytes, which)
+        eps, T, rho, b0 = _AB_inputs(v)
+        dims = (0,) * 7 if which == "A" else (-1, 0, 0, 0, 0, 0, 0)
+        u, table = _units_env(v)
+        plain = v.call(fn, eps, T, rho, b0)
+        plain1 = v.call(fn, eps, T, rho)
+        if v.symbolic:
+            du = table.generic("du", DENSITY)
+            mu = table.generic("mu", MOLALITY)
+            rq, bq = (rho / table.scale["du"]) * du, (b0 / table.scale["mu"]) * mu
+            c = {k: fractions.Fraction(repr(x)) for k, x in CODATA.items()}
+            consts = _Consts(Faraday_constant=c["F"] * u.coulomb / u.mol, Avogadro_constant=c["NA"] / u.mol, vacuum_permittivity=c["eps0"] * u.coulomb / u.volt / u.meter,
+                             Boltzmann_constant=c["kB"] * u.joule / u.kelvin, molar_gas_constant=c["R"] * u.joule / u.kelvin / u.mol, pi=math.pi)
+            plainc = v.call(fn, eps, T, rho, b0, _Consts(Faraday_constant=c["F"], Avogadro_constant=c["NA"], vacuum_permittivity=c["eps0"], Boltzmann_constant=c["kB"],
+                                                         molar_gas_constant=c["R"], pi=math.pi))
+        else:
+            from chempy.units import default_constants as consts
+            rq, bq = (rho / 1000) * u.gram / u.cm ** 3, (b0 * 1000) * u.mmol / u.kg
+            plainc = plain
+        target = 1 if which == "A" else 1 / u.meter
+        for label, kw, want in (("builtin_factor", dict(b0=bq, units=u), plain), ("builtin_factor.default_b0", dict(units=u), plain1),
+                                ("constants", dict(b0=bq, constants=consts, units=u), plainc)):
+            out = v.run(fn, eps, T * u.kelvin, rq, **kw)
+            v.prove(label + ".returns", out.returned, detail=repr(out.exc))
+            if out.returned:
+                if v.symbolic:
+                    v.prove(label + ".dimension", _dimv(out.value) == dims)
+                try:
+                    got = _si(v, out.value, target)
+                except Exception as ex:      # (sampled runs with the real package: a result of the wrong dimension cannot be converted)
+                    v.prove(label + ".same_physical_value", False, detail="result %r: %r" % (out.value, ex))
+                    continue
+                v.prove_identity(label + ".same_physical_value", got, want, rel=1e-9)
+    return _
+
+
+for _w in ("A", "B"):
+    _AB_units(_w)
+
+
+@harness("C18", "log_gamma.units", functions=[MOD + ":limiting_log_gamma", MOD + ":extended_log_gamma", MOD + ":davies_log_gamma"], div_mode="assume", samples=15)
+def _(v):
+    """'the limiting, extended and Davies log-activity coefficients equal their formulas' 'in any units': the ionic strength and the reference I0 in two
+    different units of molality, the ion size in any unit of length against B in 1/metre: a pure number with the value of the plain call on the ratio"""
+    from chempy import electrolytes as E
+    IS, z, A = _lg_inputs(v)
+    I0 = v.real("I0", pos=True, hi=2)
+    a, B, C = v.real("a", lo=0, hi=9), v.real("B", lo=0, hi=5), v.real("C", lo=-1, hi=1)
+    u, table = _units_env(v)
+    if v.symbolic:
+        m1, m2, lu = table.generic("mu1", MOLALITY), table.generic("mu2", MOLALITY), table.generic("lu", (1, 0, 0, 0, 0, 0, 0))
+        ISq, I0q, aq = (IS / table.scale["mu1"]) * m1, (I0 / table.scale["mu2"]) * m2, (a / table.scale["lu"]) * lu
+    else:
+        ISq, I0q, aq = (IS * 1000) * u.mmol / u.kg, I0 * u.mol / u.kg, (a * 1e9) * u.nanometer
+    Bq = B / u.meter
+    for label, fn, args, want in (("limiting", E.limiting_log_gamma, (ISq, z, A, I0q), v.call(E.limiting_log_gamma, IS / I0, z, A)),
+                                  ("extended", E.extended_log_gamma, (ISq, z, aq, A, Bq, C, I0q), v.call(E.extended_log_gamma, IS / I0, z, a, A, B, C)),
+                                  ("davies", E.davies_log_gamma, (ISq, z, A, C, I0q), v.call(E.davies_log_gamma, IS / I0, z, A, C))):
+        out = v.run(fn, *args)
+        v.prove(label + ".returns", out.returned, detail=repr(out.exc))
+        if out.returned:
+            if v.symbolic:
+                v.prove(label + ".pure_number", _dimv(out.value) == (0,) * 7)
+            try:
+                got = _si(v, out.value, 1)
+            except Exception as ex:
+                v.prove(label + ".same_value", False, detail="result %r: %r" % (out.value, ex))
+                continue
+            v.prove_identity(label + ".same_value", got, want, rel=1e-9)
